@@ -4,6 +4,7 @@ Metamorphic monitor: the canonical rendering of a structured program vs N seeded
 structure* under the documented freedoms, applied independently per line and per operand.
 """
 import random
+import re
 import time
 
 from .. import core, monitors
@@ -195,6 +196,30 @@ def run_case(asm, acc, case):
         items.insert(rng.randrange(len(items) + 1), e)
     if case['idx'] % 3 == 0:
         items = randprog.constify(rng, items, 0.2)
+    if case['idx'] % 4 == 1:
+        # labels named like the tail of a literal the program contains (`xff:` next to `0xff`, `b11:` next to `0b11`): the freedom to
+        # write a number in another base must not depend on what the labels are called
+        def ints(o):
+            if isinstance(o, dict):
+                if isinstance(o.get('i'), int):
+                    yield abs(o['i'])
+                if isinstance(o.get('x'), list) and len(o['x']) == 2 and isinstance(o['x'][1], int):
+                    yield abs(o['x'][1])
+                for v in o.values():
+                    yield from ints(v)
+            elif isinstance(o, list):
+                for v in o:
+                    yield from ints(v)
+        vals = sorted(set(v for v in ints(items) if v > 1))
+        rng3 = random.Random('c13-tails-%d-%d' % (case['seed'], case['idx']))
+        rng3.shuffle(vals)
+        pool = []
+        for v in vals:
+            pool += rng3.sample(['x%x' % v, 'b' + bin(v)[2:], 'X%X' % v, 'B' + bin(v)[2:], 'x%X' % v], 2)
+        pool = [n for n in dict.fromkeys(pool) if not re.fullmatch(r'[xX][0-9]+', n)]       # (x10 is a register)
+        names = [it['name'] for it in items if it['k'] == 'label']
+        items = P.rename_labels(items, dict(zip(names, pool)))
+        acc['ctr']['programs_with_labels_named_like_literal_tails'] += 1
     canon = [r_canon(it) for it in items]
     for compress in (False, True):
         a = monitors.observe(asm, '\n'.join(canon) + '\n', compress, tap=False)
